@@ -14,42 +14,149 @@ from harness import worldcorr as WC
 
 C.load_repo()
 
-from eos.pubsub.message import (EffectApplied, EffectUnapplied, EffectsStarted, EffectsStopped, ItemLoaded,  # noqa: E402
+from eos.calculator.service import WARFARE_BUFF_ATTRS  # noqa: E402
+from eos.eve_obj.effect.warfare_buff.base import WarfareBuffEffect  # noqa: E402
+from eos.pubsub.message import (AttrsValueChanged, EffectApplied, EffectUnapplied, EffectsStarted, EffectsStopped, ItemLoaded,  # noqa: E402
                                 ItemUnloaded)
-from eos.pubsub.subscriber import BaseSubscriber  # noqa: E402
 
 TYPES = (ItemLoaded, ItemUnloaded, EffectsStarted, EffectsStopped, EffectApplied, EffectUnapplied)
 
 
-class Spy(BaseSubscriber):
-    _handler_map = {}
+class Spy:
+    """Records every message the calculation service is notified of, in the order it handles them (the service's
+    own `_notify` is wrapped, so messages it publishes from inside a handler are seen nested, with their depth)."""
 
     def __init__(self, world):
         self.w = world
         self.events = []
+        self.depth = 0
+        self.last_bs = {}
+        self.buffs_after = []
+        calc = world.ss._calculator
+        self.calc = calc
+        inner = calc._notify
 
-    def _notify(self, msg):
+        def notify(msg):
+            self.record(msg)
+            self.depth += 1
+            try:
+                inner(msg)
+            finally:
+                self.depth -= 1
+        calc._notify = notify
+
+    def buff_lines(self):
+        """`BS` lines for projectors whose registered warfare-buff modifiers changed since last reported."""
+        reg = self.calc._CalculationService__warfare_buffs
+        now = {}
+        for projector, specs in reg.items():
+            vid = getattr(projector.item, '_vid', None)
+            if vid is None:
+                continue
+            ms = sorted('%d,%d,%s,%d,%d,%d,%s,%d' % (
+                int(m.affectee_filter), int(m.affectee_domain), W.opt(m.affectee_filter_extra_arg), m.affectee_attr_id,
+                int(m.operator), int(m.aggregate_mode), W.opt(m.aggregate_key), m.affector_attr_id)
+                for m in (sp.modifier for sp in specs))
+            now[(vid, int(projector.effect.id))] = ';'.join(ms) or '-'
+        out = []
+        for key in sorted(set(now) | set(self.last_bs)):
+            cur = now.get(key, '-')
+            if self.last_bs.get(key, '-') != cur:
+                out.append('BS %d %d %s' % (key[0], key[1], cur))
+                self.last_bs[key] = cur
+        return out
+
+    def record(self, msg):
         w = self.w
         t = type(msg)
+        if t is AttrsValueChanged:
+            # the service re-reads the buff id attributes of running boost effects whose buff attributes changed
+            reads = []
+            for it, attr_ids in msg.attr_changes.items():
+                if not attr_ids.intersection(WARFARE_BUFF_ATTRS) or getattr(it, '_vid', None) is None:
+                    continue
+                if any(isinstance(it._type_effects[e], WarfareBuffEffect) for e in it._running_effect_ids):
+                    reads.append((it._vid, ['MR %d %d' % (it._vid, int(a)) for a in WARFARE_BUFF_ATTRS]))
+            if self.depth == 0:
+                # not raised by the service's own cascade: an override changed (skill level)
+                for it, attr_ids in msg.attr_changes.items():
+                    for a in sorted(attr_ids):
+                        self.events.append({'line': 'MC %d %d' % (it._vid, int(a)), 'pre': [], 'post': [],
+                                            'src': w.src_now(), 'snap': w.snapshot_lines(), 'depth': 0, 'kind': 'MC',
+                                            'key': None})
+            if reads:
+                self.events.append({'line': None, 'pre': [], 'post': [], 'src': w.src_now(), 'snap': w.snapshot_lines(),
+                                    'depth': self.depth, 'kind': 'RV', 'key': None, 'reads': reads})
+            return
+        if t not in TYPES:
+            return
         it = msg.item
         vid = getattr(it, '_vid', None)
         if vid is None:
             raise C.InfraError('message for an item without serial: %r' % (it,))
+        key = None
+        post = []
         if t is ItemLoaded:
             line = 'ML %d' % vid
         elif t is ItemUnloaded:
             line = 'MU %d' % vid
         elif t is EffectsStarted:
             line = 'MS %d %s' % (vid, ','.join(str(int(e)) for e in sorted(msg.effect_ids)))
+            # the handler reads the buff id attributes of every started boost effect
+            for e in msg.effect_ids:
+                if isinstance(it._type_effects[e], WarfareBuffEffect):
+                    post.extend('MR %d %d' % (vid, int(a)) for a in WARFARE_BUFF_ATTRS)
         elif t is EffectsStopped:
             line = 'MT %d %s' % (vid, ','.join(str(int(e)) for e in sorted(msg.effect_ids)))
+            key = (vid, set(int(e) for e in msg.effect_ids))
         else:
             tg = [getattr(x, '_vid', None) for x in msg.tgt_items]
             if any(v is None for v in tg):
                 return            # target outside the world (never generated)
             line = '%s %d %d %s' % ('MA' if t is EffectApplied else 'MN', vid, int(msg.effect_id),
                                     ','.join(map(str, tg)) or '-')
-        self.events.append((line, w.src_now(), w.snapshot_lines()))
+            key = (vid, int(msg.effect_id))
+        ev = {'line': line, 'pre': self.buff_lines(), 'post': post, 'src': w.src_now(), 'snap': w.snapshot_lines(),
+              'depth': self.depth, 'kind': line[:2], 'key': key}
+        self.events.append(ev)
+
+    def ordered(self):
+        """The service un-applies the warfare buffs of stopping effects from inside its `EffectsStopped` handler,
+        before it drops the effect's local specs; in the model that is `unapply` followed by `stop`."""
+        evs = list(self.events)
+        k = 0
+        while k < len(evs):
+            e = evs[k]
+            if e['kind'] == 'MT':
+                j = k + 1
+                while (j < len(evs) and evs[j]['depth'] == e['depth'] + 1 and evs[j]['kind'] == 'MN'
+                       and evs[j]['key'][0] == e['key'][0] and evs[j]['key'][1] in e['key'][1]):
+                    j += 1
+                if j > k + 1:
+                    evs[k:j] = evs[k + 1:j] + [e]
+                    k = j
+                    continue
+            k += 1
+        # re-reads of buff id attributes happen after the nested cascade, before the re-application
+        k = 0
+        while k < len(evs):
+            e = evs[k]
+            if e['kind'] == 'RV' and e.get('reads'):
+                end = k + 1
+                while end < len(evs) and evs[end]['depth'] > e['depth']:
+                    end += 1
+                for vid, rl in e['reads']:
+                    pos = end
+                    for j in range(k + 1, end):
+                        if evs[j]['kind'] == 'MA' and evs[j]['depth'] == e['depth'] + 1 and evs[j]['key'][0] == vid:
+                            pos = j
+                            break
+                    evs.insert(pos, {'line': None, 'pre': [], 'post': rl, 'src': e['src'], 'snap': None,
+                                     'depth': e['depth'] + 1, 'kind': 'RD', 'key': None})
+                    end += 1
+                e['reads'] = []
+            k += 1
+        return evs
 
 
 def attach(w):
@@ -58,11 +165,10 @@ def attach(w):
     from eos import Fit
 
     def op_add_fit():
-        # same public effect as Fit(solar_system=ss), but the spy is in place before the character loads
+        # same public effect as Fit(solar_system=ss), but the character has its serial before it loads
         f = Fit(solar_system=None)
         w.reg(f, w.fits)
         w.reg(f.character, w.items)
-        f._subscribe(spy, TYPES)
         w.ss.fits.add(f)
     w.op_add_fit = op_add_fit
 
@@ -79,6 +185,7 @@ def run(seed, p, ops=None):
     """Execute a history; returns (ops, driver lines, [impl cache after each op], crash)."""
     rnd, w = WC.make_world(seed, p)
     spy = attach(w)
+    run.last_spy = spy
     gen = W.OpGen(rnd, p)
     lines = ['X']
     cur_uni = 'unset'
@@ -112,13 +219,16 @@ def run(seed, p, ops=None):
             except Exception as e:
                 return done + [op], lines, impl, {'op': op, 'exc': type(e).__name__}
             done.append(op)
-            for line, src, snap in spy.events:
-                emit_cfg(src, snap)
-                lines.append(line)
+            for ev in spy.ordered():
+                if ev['snap'] is not None and ev['line'] is not None:
+                    emit_cfg(ev['src'], ev['snap'])
+                lines.extend(ev['pre'])
+                if ev['line'] is not None:
+                    lines.append(ev['line'])
+                lines.extend(ev['post'])
             emit_cfg(w.src_now(), w.snapshot_lines())
-            if op[0] == 'level':
-                lines.append('MC %d %d' % (op[1], W.SKILL_LEVEL))
-            elif op[0] == 'read':
+            lines.extend(spy.buff_lines())
+            if op[0] == 'read':
                 for vid, a in op[1]:
                     lines.append('MR %d %d' % (vid, a))
             elif op[0] == 'read_all':
@@ -128,6 +238,8 @@ def run(seed, p, ops=None):
                         lines.append('MR %d %d' % (it._vid, a))
             lines.append('QK')
             impl.append(w.peek_cache())
+            lines.append('QB')
+            spy.buffs_after.append({k: v for k, v in spy.last_bs.items() if v != '-'})
     return done, lines, impl, None
 
 
@@ -137,18 +249,31 @@ def check(seed, p, ops=None):
     if crash:
         return done, {'where': 'micro:impl-crash', 'detail': crash}, {}
     out = C.run_driver('drv_micro', '\n'.join(lines) + '\n')
-    answers, cur = [], {}
+    buffs_impl = run.last_spy.buffs_after
+    answers, banswers, cur, curb = [], [], {}, {}
+    in_b = False
     for ln in out:
         if ln == '.':
-            answers.append(cur)
-            cur = {}
+            if in_b:
+                banswers.append(curb)
+                curb = {}
+            else:
+                answers.append(cur)
+                cur = {}
+            in_b = not in_b
         elif ln.startswith('K '):
             _, i, a, v = ln.split(' ')
             cur[(int(i), int(a))] = C.unq(v)
+        elif ln.startswith('B '):
+            _, i, e, ms = ln.split(' ')
+            curb[(int(i), int(e))] = ms
+        elif ln.startswith('T '):
+            _, i, e, rec, spec = ln.split(' ')
+            curb[('tgts', int(i), int(e))] = (rec, spec)
         elif ln.startswith('bad-op'):
             raise C.InfraError('micro driver: ' + ln)
-    if len(answers) != len(impl):
-        raise C.InfraError('micro driver answered %d of %d steps' % (len(answers), len(impl)))
+    if len(answers) != len(impl) or len(banswers) != len(impl):
+        raise C.InfraError('micro driver answered %d/%d of %d steps' % (len(answers), len(banswers), len(impl)))
     stats = {'steps': len(impl), 'cached_entries': sum(len(x) for x in impl)}
     for k, (m, i) in enumerate(zip(answers, impl)):
         if set(m) != set(i):
@@ -158,4 +283,26 @@ def check(seed, p, ops=None):
             if not C.close(float(m[key]), v):
                 return done, {'where': 'L2:cache-values', 'step': k, 'op': done[k], 'key': key,
                               'model': str(m[key]), 'impl': v}, stats
+    # the registered warfare-buff modifiers (payload of the message-level model) against what the specification
+    # derives from the buff id attributes and the templates
+    for k, (mb, ib) in enumerate(zip(banswers, buffs_impl)):
+        for key, ms in mb.items():
+            if key[0] == 'tgts':
+                stats['buff_target_sets_compared'] = stats.get('buff_target_sets_compared', 0) + 1
+                # a boost without registered modifiers records no targets (nothing is applied for it)
+                if ms[0] != ms[1] and mb.get(key[1:], '-') not in ('-', 'err'):
+                    return done, {'where': 'L2:buff-targets', 'step': k, 'op': done[k], 'projector': key[1:],
+                                  'model': ms[0], 'impl': ms[0], 'spec': ms[1]}, stats
+                continue
+            if ms == 'err':
+                stats['buff_spec_err'] = stats.get('buff_spec_err', 0) + 1
+                continue
+            stats['buff_registrations_compared'] = stats.get('buff_registrations_compared', 0) + (ms != '-')
+            if ib.get(key, '-') != ms:
+                return done, {'where': 'L2:buff-registry', 'step': k, 'op': done[k], 'projector': key, 'spec': ms,
+                              'impl': ib.get(key, '-')}, stats
+        for key in ib:
+            if key not in mb:
+                return done, {'where': 'L2:buff-registry', 'step': k, 'op': done[k], 'projector': key,
+                              'spec': 'no running boost', 'impl': ib[key]}, stats
     return done, None, stats
